@@ -201,5 +201,6 @@ Fixpoint aval_eqb (a b: aval) {struct a} : bool :=
   | AList x, AList y => list_eqb aval_eqb x y
   | ABag x, ABag y => bag_eqb aval_eqb x y
   | AChoice i x, AChoice j y => Nat.eqb i j && aval_eqb x y
+  | ABad, ABad => true
   | _, _ => false
   end.
